@@ -431,6 +431,59 @@ fn run_big(trailing: (usize, usize), top: &BcSpec, out: &mut JobOut) {
     out.sample = Some(Json::str(&key));
 }
 
+/// Every ordered pair of (left, right) end conditions as the conditions of two *adjacent* lanes
+/// (25 x 25 pairs, derivative values shared between the lanes), also with the pair repeated
+/// (lanes P, Q, P, Q): each lane must be the spline that lane gives when it is built alone.
+fn run_adjacent_pairs(repeat: bool, out: &mut JobOut) {
+    use ndarray::{Array1 as A1, Array2 as A2};
+    use ndarray_interp::interp1d::cubic_spline::CubicSpline;
+    use ndarray_interp::interp1d::Interp1DBuilder;
+    let x = vec![0.0, 0.5, 2.0, 2.75, 4.0, 6.5];
+    let n = x.len();
+    let pairs = alpha::end_pairs();
+    let lanes = if repeat { 4 } else { 2 };
+    let q = A1::from(vec![0.25, 1.0, 2.5, 3.9, 6.0, 6.5]);
+    let xa = A1::from(x.clone());
+    for (ip_, p) in pairs.iter().enumerate() {
+        for (iq, qq) in pairs.iter().enumerate() {
+            if ip_ == iq {
+                continue;
+            }
+            let conds: Vec<(End, End)> = (0..lanes).map(|j| if j % 2 == 0 { *p } else { *qq }).collect();
+            let data = A2::from_shape_fn((n, lanes), |(i, j)| GENERIC[(i * 3 + j * 5) % 11] * (1 + j % 2) as f64);
+            let key = format!("adjacent-lanes:{}|{}+{}|{}{}", p.0.name(), p.1.name(), qq.0.name(), qq.1.name(), if repeat { ":x2" } else { "" });
+            let spec = BcSpec::Lanes(conds.clone());
+            let res = match catch(|| Interp1DBuilder::new(data.view()).x(xa.clone()).strategy(CubicSpline::new().boundary(nimc::subj::boundary::<f64, ndarray::Ix2>(&spec, &[lanes]))).build().map(|ip| ip.interp_array(&q))) {
+                Ok(Ok(Ok(r))) => r,
+                other => {
+                    out.violate(format!("{key}:build"), format!("valid per-lane conditions not handled: {:?}", other.map(|r| r.map(|r| r.map(|_| ())))), Json::Null);
+                    continue;
+                }
+            };
+            out.states += 1;
+            for j in 0..lanes {
+                let col = data.column(j).to_owned();
+                let one = BcSpec::Lanes(vec![conds[j]]);
+                let alone = match catch(|| Interp1DBuilder::new(col).x(xa.clone()).strategy(CubicSpline::new().boundary(nimc::subj::boundary::<f64, ndarray::Ix1>(&one, &[]))).build().map(|ip| ip.interp_array(&q))) {
+                    Ok(Ok(Ok(r))) => r,
+                    _ => continue,
+                };
+                out.evals += 1;
+                out.nontrivial += 1;
+                out.transitions += 1;
+                let ok = (0..q.len()).all(|k| same(alone[k], res[[k, j]]));
+                out.outcome(if ok { "adjacent-lanes:same" } else { "adjacent-lanes:differs" });
+                if !ok {
+                    let k = (0..q.len()).find(|&k| !same(alone[k], res[[k, j]])).unwrap();
+                    out.violate(key.clone(), format!("lanes with the end conditions {:?}: lane {j} gives {:e} at q = {}, the spline built from that lane alone (same condition) {:e}", conds.iter().map(|c| format!("{}|{}", c.0.name(), c.1.name())).collect::<Vec<_>>(), res[[k, j]], q[k], alone[k]), Json::Null);
+                    break;
+                }
+            }
+        }
+    }
+    out.sample = Some(Json::str("25 x 25 ordered pairs of (left, right) end conditions on adjacent lanes"));
+}
+
 fn body(ctx: &Ctx) -> (Summary, Meta) {
     let quick = ctx.quick();
     let mut axes = if quick {
@@ -544,8 +597,13 @@ fn body(ctx: &Ctx) -> (Summary, Meta) {
         out
     }));
     let _ = (Array1::<f64>::zeros(1), Axis(0));
+    sum.merge(run_jobs(ctx, "adjacent-lane-pairs", &[false, true], |r| format!("adjacent-lanes:{}", if *r { "P,Q,P,Q" } else { "P,Q" }), |r| {
+        let mut out = JobOut::default();
+        run_adjacent_pairs(*r, &mut out);
+        out
+    }));
     let meta = Meta {
-        rule: "for every (axis, trailing shape incl. length-0/1 and non-square ones, static Ix1..Ix6 or dynamic rank, strategy / boundary configuration incl. a different condition per lane, all 216 assignments of 6 row conditions to 3 lanes, and 4 different conditions on a square (2,2) trailing shape; data replicated along the last trailing axis with one lane's condition differing at every position / all 81 assignments of 3 conditions to 4 lanes): (a) every lane of the n-d result is compared with the interpolator built from that lane (and its own boundary condition) alone; (b) for every lane i, rebuilding with lane i set to NaN / +inf / other values x 2^20 / another boundary condition leaves every other lane bit-identical. Phase data-above-16MiB: 33 x 260 x 250 (and 250 x 260) f64 data sets, every one of the 65000 lanes against its stand-alone spline. Every comparison is non-trivial.".into(),
+        rule: "for every (axis, trailing shape incl. length-0/1 and non-square ones, static Ix1..Ix6 or dynamic rank, strategy / boundary configuration incl. a different condition per lane, all 216 assignments of 6 row conditions to 3 lanes, and 4 different conditions on a square (2,2) trailing shape; data replicated along the last trailing axis with one lane's condition differing at every position / all 81 assignments of 3 conditions to 4 lanes): (a) every lane of the n-d result is compared with the interpolator built from that lane (and its own boundary condition) alone; (b) for every lane i, rebuilding with lane i set to NaN / +inf / other values x 2^20 / another boundary condition leaves every other lane bit-identical. Phase data-above-16MiB: 33 x 260 x 250 (and 250 x 260) f64 data sets, every one of the 65000 lanes against its stand-alone spline. Every comparison is non-trivial. Phase adjacent-lane-pairs: every ordered pair of the 25 (left, right) end conditions on two adjacent lanes (and as P, Q, P, Q), derivative values shared between the lanes: every lane bit-identical to the spline built from that lane alone with its own condition.".into(),
         bounds: format!("{njobs} (axis, trailing shape, rank kind, configuration) jobs; tier {}", ctx.tier.name()),
         assumptions: vec!["(a) is required within rounding (K eps scale); bit-identity is reported as an observed outcome".into()],
         extra: vec![],
